@@ -562,6 +562,7 @@ func (vc *FnVC) doReturn(st *State, r *ssa.Return) {
 	if vc.unit.HasMod && !vc.unit.ModInferred {
 		vc.frameCheck(st)
 	}
+	vc.enumChecks(st, env)
 }
 
 func clauseLabel2(c Clause, i int) string {
@@ -710,6 +711,14 @@ func (vc *FnVC) alloc(st *State, a *ssa.Alloc) *Val {
 		return &Val{T: a.Type(), S: ref}
 	}
 	s := sortOf(elem)
+	if at, ok := elem.Underlying().(*types.Array); ok && isStruct(at.Elem()) {
+		// array of structs: the elements are objects elem(base, i)
+		base := vc.newRef(st, a.Comment)
+		for i := int64(0); i < at.Len() && i < 16; i++ {
+			vc.storeStruct(st, at.Elem(), vc.elemRef(at.Elem(), base, fmt.Sprint(i)), vc.zeroVal(at.Elem()))
+		}
+		return &Val{T: a.Type(), S: base, Addr: &Addr{Kind: "structarr", Base: base, Elem: at.Elem()}}
+	}
 	if s == "" {
 		vc.note("alloc of %s havocked", elem)
 		return vc.freshVal(st, a.Type(), "alloc")
@@ -791,6 +800,9 @@ func (vc *FnVC) indexAddr(st *State, ia *ssa.IndexAddr) *Val {
 		at := t.Elem().Underlying().(*types.Array)
 		if c, ok := constIntOf(ia.Index); !ok || c < 0 || c >= at.Len() {
 			vc.safety(st, "index", vc.srcText(ia, ia), smtAnd(sx("<=", "0", i.S), sx("<", i.S, fmt.Sprint(at.Len()))))
+		}
+		if x.Addr != nil && x.Addr.Kind == "structarr" {
+			return &Val{T: ia.Type(), S: vc.elemRef(at.Elem(), x.Addr.Base, i.S)}
 		}
 		pa := vc.addrOf(st, x)
 		if pa == nil || sortOf(at.Elem()) == "" {
@@ -930,6 +942,9 @@ func (vc *FnVC) sliceOp(st *State, s *ssa.Slice) *Val {
 		}
 		if s.Low != nil || s.High != nil {
 			vc.safety(st, "slice", what, smtAnd(sx("<=", "0", lo), sx("<=", lo, hi), sx("<=", hi, n)))
+		}
+		if x.Addr != nil && x.Addr.Kind == "structarr" {
+			return &Val{T: s.Type(), S: vc.define(s.Name(), "Slice", sx("mkslice", x.Addr.Base, lo, sx("-", hi, lo), sx("-", n, lo)))}
 		}
 		if pa := vc.addrOf(st, x); pa != nil && sortOf(at.Elem()) != "" {
 			// materialise the array as a fresh backing store holding its current contents
@@ -1080,11 +1095,15 @@ func (vc *FnVC) frameCheck(st *State) {
 			continue
 		}
 		allowed[k] = append(allowed[k], ref)
+		if strings.HasPrefix(k, "MD!") {
+			allowed["MV!"+k[3:]] = append(allowed["MV!"+k[3:]], ref)
+			allowed["ML!"+k[3:]] = append(allowed["ML!"+k[3:]], ref)
+		}
 	}
 	alloc0 := entrySym("$alloc")
 	for _, k := range sortedKeys(st.m) {
 		ki := vc.keys[k]
-		if ki == nil || ki.Kind == "local" || ki.Kind == "iter" || ki.Kind == "alloc" {
+		if ki == nil || ki.Kind == "local" || ki.Kind == "iter" || ki.Kind == "alloc" || strings.HasPrefix(k, "W!") || strings.HasPrefix(k, "CALLS") {
 			continue
 		}
 		cur := st.m[k]
@@ -1115,4 +1134,110 @@ func (vc *FnVC) frameCheck(st *State) {
 		vc.curInstr = nil
 		vc.oblige(st, "modifies", shortKey(k), goal, "frame: only the declared locations of "+k+" change")
 	}
+}
+
+// enumChecks generates the obligation families that are enumerated from go/types: `pins` and `visits`.
+func (vc *FnVC) enumChecks(st *State, env *Env) {
+	structOf := func(v *Val) (types.Type, *types.Struct) {
+		t := v.T
+		if p, ok := t.Underlying().(*types.Pointer); ok {
+			t = p.Elem()
+		}
+		u, _ := t.Underlying().(*types.Struct)
+		return t, u
+	}
+	for _, ps := range vc.unit.Pins {
+		v, err := vc.evalTerm(env, ps.E)
+		if err != nil {
+			vc.contractError("pins %s: %v", ps.Obj, err)
+			continue
+		}
+		t, u := structOf(v)
+		if u == nil {
+			vc.contractError("pins %s: not a struct", ps.Obj)
+			continue
+		}
+		for i := 0; i < u.NumFields(); i++ {
+			f := u.Field(i)
+			if ps.Except[f.Name()] {
+				continue
+			}
+			var goal string
+			if isStruct(f.Type()) {
+				// embedded struct value: every leaf assigned
+				id := func(x string) string { return x }
+				var gs []string
+				for _, lf := range vc.leafFields(f.Type(), id, id) {
+					if vc.keys["W!"+lf.key] == nil {
+						gs = append(gs, "false")
+						continue
+					}
+					gs = append(gs, sx("select", vc.get(st, "W!"+lf.key), lf.ref(vc.embRef(t, f.Name(), v.S))))
+				}
+				goal = smtAnd(gs...)
+			} else {
+				k := vc.fieldKey(t, f)
+				if k == nil {
+					continue
+				}
+				if vc.keys["W!"+k.Name] == nil {
+					goal = "false"
+				} else {
+					goal = sx("select", vc.get(st, "W!"+k.Name), v.S)
+				}
+			}
+			vc.oblige(st, "pins", f.Name(), goal, "field "+f.Name()+" of "+ps.Obj+" is assigned on every path (no value survives from a previous use of the object)")
+		}
+	}
+	for _, vs := range vc.unit.Visits {
+		if !vc.isLastReturn() {
+			break // early exits (the callback returned false) have nothing to show
+		}
+		v, err := vc.evalTerm(env, vs.E)
+		if err != nil {
+			vc.contractError("visits %s: %v", vs.Obj, err)
+			continue
+		}
+		t, u := structOf(v)
+		if u == nil {
+			vc.contractError("visits %s: not a struct", vs.Obj)
+			continue
+		}
+		ck := "CALLS!" + vs.Func
+		rk := "CALLSOK!" + vs.Func
+		for i := 0; i < u.NumFields(); i++ {
+			f := u.Field(i)
+			if vs.Except[f.Name()] {
+				continue
+			}
+			if _, isPtr := f.Type().Underlying().(*types.Pointer); !isPtr {
+				continue
+			}
+			k := vc.fieldKey(t, f)
+			goal := "false"
+			if vc.keys[ck] != nil && k != nil {
+				goal = smtImp(vc.get(st, rk), sx("select", vc.get(st, ck), sx("select", vc.get(st, k.Name), v.S)))
+			}
+			vc.oblige(st, "visits", f.Name(), goal, "field "+f.Name()+" of "+vs.Obj+" is passed to "+vs.Func+" (when every call returns true)")
+		}
+	}
+}
+
+// isLastReturn: the current instruction is the Return with the highest source position.
+func (vc *FnVC) isLastReturn() bool {
+	cur, ok := vc.curInstr.(*ssa.Return)
+	if !ok {
+		return false
+	}
+	if !cur.Pos().IsValid() {
+		return true // the implicit return at the end of the function body
+	}
+	for _, b := range vc.fn.Blocks {
+		for _, in := range b.Instrs {
+			if r, isR := in.(*ssa.Return); isR && r != cur && (!r.Pos().IsValid() || r.Pos() > cur.Pos()) {
+				return false
+			}
+		}
+	}
+	return true
 }
